@@ -13,7 +13,6 @@ import decimal
 import re
 import textwrap
 
-from functools import lru_cache as cache
 from decimal import Decimal
 
 import dateutil.parser
@@ -884,6 +883,10 @@ class Row:
     def __init__(self, entries, options):
         self.rowid = 0
         self.balance = inventory.Inventory()
+        # The rowid of the row the running balance has last been
+        # updated for and the value of the balance column for it.
+        self.balance_rowid = None
+        self.balance_value = None
 
 
 class BeanTable(tables.Table):
@@ -1229,16 +1232,20 @@ def weight(context):
 
 
 @column(inventory.Inventory)
-@cache(maxsize=1)
 def balance(context):
     """The balance for the posting. These can be summed into inventories."""
-    # Caching protects against multiple balance updates per row when
-    # the columns appears more than once in the execurted query. The
-    # rowid in the row context guarantees that otherwise identical
-    # rows do not hit the cache and thus that the balance is correctly
-    # updated.
-    context.balance.add_position(context.posting)
-    return copy.copy(context.balance)
+    # Protect against multiple balance updates per row when the column
+    # appears more than once in the executed query: remember in the
+    # row context, which is private to one table scan, the row the
+    # balance has been updated for. A cache shared by all the scans in
+    # the process is evicted by any other scan evaluating this column
+    # in between (a subquery, another thread) and the posting would
+    # then be counted twice.
+    if context.balance_rowid != context.rowid:
+        context.balance.add_position(context.posting)
+        context.balance_value = copy.copy(context.balance)
+        context.balance_rowid = context.rowid
+    return context.balance_value
 
 
 @column(dict)
